@@ -416,6 +416,9 @@ class SqlImpl(TableImpl):
 
             # We only want to select those columns that (1) the user uses in some
             # expression later or (2) are present in the final selection.
+            # The grouping columns are used by a later `summarize` / window function.
+            for col in query.partition_by:
+                needed_cols.setdefault(col._uuid, 1)
 
             original_select = query.select
             query.select = []
